@@ -90,14 +90,18 @@ func ValidQuery(schema *ast.Schema, query string) bool { panic("ghost") }
 
 //@ func QueryerFactory
 //@ params ctx, url
-//@ trusted callback supplied by the embedding application: assumed not to modify gateway state
+//@ trusted callback supplied by the embedding application: assumed not to modify gateway state and to return a queryer
+//@ ensures result != nil
 //@ modifies fresh
 //@ end
 
 //@ func (*Gateway).getQueryers
 //@ props C07
 //@ requires g != nil && g.queryerFactory != nil
+//@ ensures[nonnil] result != nil && fresh(result) && forallT(u, string, has(result, u) ==> result[u] != nil)
 //@ modifies-assumed fresh, global(queryer.QueryCalls)
+//@ loop 0 invariant[nonnil] queryers != nil && fresh(queryers) && forallT(u, string, has(queryers, u) ==> queryers[u] != nil)
+//@ loop 1 invariant[nonnil] queryers != nil && fresh(queryers) && forallT(u, string, has(queryers, u) ==> queryers[u] != nil) && forallT(u, string, has(childQueryers, u) ==> childQueryers[u] != nil) && childQueryers != queryers
 //@ end
 
 //@ func (*Gateway).parseIntrospectionQuery
